@@ -36,6 +36,11 @@ def plan(tier, seed):
     jobs.append(ch("C14", "vf/pyshim/h_c08.py", "h_hive_two_levels", t,
                    ["api.paths_to_cats", "api._path_to_cats", "util._strip_path_tail", "util.val_to_num",
                     "core.read_row_group (partition lines)"]))
+    j = ch("C14", "vf/pyshim/h_c08.py", "h_hive_two_levels", t,
+           ["api.paths_to_cats", "api._path_to_cats", "core.read_row_group (partition lines)"],
+           shape=dict(partition_columns="kk,k"), env=dict(VERIF_PNAMES="kk,k"))
+    j["name"] += "[names=kk,k]"         # one level's name is the tail of the other's
+    jobs.append(j)
     extra = dict(
         explanation="The real util.metadata_from_many (legacy branch and the >=3-files footer-gathering branch) and "
                     "util.analyse_paths run under CrossHair (z3): row-group counts per file, row counts, footer "
